@@ -163,7 +163,7 @@ func checkC08(c ProgCase, o *h.Obs) *h.Fail {
 	return nil
 }
 
-const ruleC08 = "rapid state machine over 5 Decimal variables (initially zero values, clean/dirty zeros and infinities, finite values): each step is drawn against the current state from set/copy/neg/abs/add/sub/mul/quo/fma/sqrt, SetPrec/SetMode/SetInf, SetMantExp/MantExp (offsets driving exponents to both range ends and back), SetInt/SetInt64/SetUint64/SetRat/SetFloat64/SetFloat, Parse (bases 0,2,8,10,16)/SetString/UnmarshalText/Scan on valid and invalid literals, GobEncode->GobDecode with valid and mutated payloads, SetBitsExp with fresh word slices (leading/low zero words) or the receiver's own BitsExp slice; receivers and operands drawn independently so every aliasing occurs. Sum-type steps are only scheduled between operands whose digit gap is bounded, quotients/roots at bounded precision (cost bounds). Invariant after every step on every variable: finite => non-empty mantissa, top word in [10^18,10^19), all words < 10^19, 1 <= MinPrec <= Prec, exponent in range; zero/inf => no mantissa, MantExp 0, MinPrec 0; valid mode/accuracy codes; pairwise Cmp == exact order of the values read back (equal digits/exponent <=> Cmp == 0); no panic other than ErrNaN; after Set/Neg/Abs/SetPrec/SetMantExp steps the receiver holds exactly the reference rounding of the operand (range rule included: a carry past MaxExp must give an infinity, not a wrapped finite value). Non-trivial = a run with at least one rounding step AND one aliased step AND one range-edge or decode step; distinct by program encoding."
+const ruleC08 = "rapid state machine over 5 Decimal variables (initially zero values, clean/dirty zeros and infinities, finite values): each step is drawn against the current state from set/copy/neg/abs/add/sub/mul/quo/fma/sqrt, SetPrec/SetMode/SetInf, SetMantExp/MantExp (offsets driving exponents to both range ends and back), SetInt/SetInt64/SetUint64/SetRat/SetFloat64/SetFloat, Parse (bases 0,2,8,10,16)/SetString/UnmarshalText/Scan on valid and invalid literals, GobEncode->GobDecode with valid and mutated payloads, read-only accessors (conversions, formatting, encoding, Cmp, predicates), SetBitsExp with fresh word slices (leading/low zero words) or the receiver's own BitsExp slice; receivers and operands drawn independently so every aliasing occurs. Sum-type steps are only scheduled between operands whose digit gap is bounded, quotients/roots at bounded precision (cost bounds). Invariant after every step on every variable: finite => non-empty mantissa, top word in [10^18,10^19), all words < 10^19, 1 <= MinPrec <= Prec, exponent in range; zero/inf => no mantissa, MantExp 0, MinPrec 0; valid mode/accuracy codes; pairwise Cmp == exact order of the values read back (equal digits/exponent <=> Cmp == 0); no panic other than ErrNaN; after Set/Neg/Abs/SetPrec/SetMantExp steps the receiver holds exactly the reference rounding of the operand (range rule included: a carry past MaxExp must give an infinity, not a wrapped finite value). Non-trivial = a run with at least one rounding step AND one aliased step AND one range-edge or decode step; distinct by program encoding."
 
 var propC08 = &h.Prop[ProgCase]{ID: "C08", Rule: ruleC08, Gen: func(t *rapid.T) ProgCase { return genProg(t, sm.DefaultOpts()) }, Check: checkC08, Matchers: map[string]func(ProgCase) bool{}}
 
@@ -185,14 +185,18 @@ func checkC09(c ProgCase, o *h.Obs) *h.Fail {
 			return h.Failf("panic", "%s panicked with %T: %v", stepString(i, s), out.Panic, out.Panic)
 		}
 		zb := before[s.Z]
-		// operands that are not the receiver keep everything
+		// operands that are not the receiver keep everything (an accessor has no receiver at all)
 		for j := range m.V {
-			if j == s.Z {
+			if j == s.Z && !sm.ReadOnly(s.Op) {
 				continue
 			}
 			if after := h.Read(m.V[j]); !after.SameAll(before[j]) {
 				return h.Failf("operand-modified", "%s changed v%d (not the receiver): before %v after %v", stepString(i, s), j, before[j], after)
 			}
+		}
+		if sm.ReadOnly(s.Op) {
+			o.Label("op:" + s.Op)
+			continue
 		}
 		za := h.Read(m.V[s.Z])
 		if s.Op == "gob" && len(s.Mut) == 0 && zb.Prec == 0 && !out.Rejects {
@@ -277,7 +281,7 @@ func checkC09(c ProgCase, o *h.Obs) *h.Fail {
 	return nil
 }
 
-const ruleC09 = "the C08 state machine with the receiver's precision forced to 0 before about 30% of the steps and receiver/operand modes drawn independently. Before each step all variables are snapshotted (form, sign, mantissa words, exponent, precision, mode, accuracy); after it: every variable that is not the receiver is bit-identical; the receiver's mode is unchanged unless the operation is SetMode or one documented to copy attributes (Copy, SetMantExp, MantExp's out-parameter, GobDecode into a precision-0 receiver), in which case it equals the argument's; the receiver's precision is unchanged unless it was 0 - then it must equal the documented value (max operand precision for Add/Sub/Mul/Quo/FMA, x's for Sqrt/Set/Neg/Abs, max(34,digits) for SetInt, 34 for SetInt64/SetUint64/strings, 17 for SetFloat64, ceil(prec*log10 2) for SetFloat, either documented reading for SetRat) - or the operation is SetPrec / attribute-copying. Enumerated on every run (TestC09Grid): the precision a precision-0 receiver gets from SetFloat for every big.Float precision 1..45000 (thorough: 120000) against ceil(p*log10 2) computed with a 60-digit constant, and SetInt's max(34, digits) for 1..400 digits. TestC09Ops runs single operations from the C01 generator (operands up to 24000 digits) under the operand-unmodified and sticky assertions only. Not asserted: empty Gob payload, corrupted payloads (C17), precision after a rejected literal, precision-0 SetBitsExp (unspecified). Non-trivial = a run containing a step whose receiver had precision 0 or whose operands' modes differ from the receiver's; distinct by program encoding."
+const ruleC09 = "the C08 state machine with the receiver's precision forced to 0 before about 30% of the steps and receiver/operand modes drawn independently. About one step in eleven is a read-only accessor on a variable (Int, Int64, Uint64, Rat, Float64, Float32, Float, Text/Append in every format, Format, String, GobEncode, MarshalText, JSON, Cmp, the predicates and BitsExp), after which every variable must be bit-identical. Before each step all variables are snapshotted (form, sign, mantissa words, exponent, precision, mode, accuracy); after it: every variable that is not the receiver is bit-identical; the receiver's mode is unchanged unless the operation is SetMode or one documented to copy attributes (Copy, SetMantExp, MantExp's out-parameter, GobDecode into a precision-0 receiver), in which case it equals the argument's; the receiver's precision is unchanged unless it was 0 - then it must equal the documented value (max operand precision for Add/Sub/Mul/Quo/FMA, x's for Sqrt/Set/Neg/Abs, max(34,digits) for SetInt, 34 for SetInt64/SetUint64/strings, 17 for SetFloat64, ceil(prec*log10 2) for SetFloat, either documented reading for SetRat) - or the operation is SetPrec / attribute-copying. Enumerated on every run (TestC09Grid): the precision a precision-0 receiver gets from SetFloat for every big.Float precision 1..45000 (thorough: 120000) against ceil(p*log10 2) computed with a 60-digit constant, and SetInt's max(34, digits) for 1..400 digits. TestC09Ops runs single operations from the C01 generator (operands up to 24000 digits) under the operand-unmodified and sticky assertions only. Not asserted: empty Gob payload, corrupted payloads (C17), precision after a rejected literal, precision-0 SetBitsExp (unspecified). Non-trivial = a run containing a step whose receiver had precision 0 or whose operands' modes differ from the receiver's; distinct by program encoding."
 
 var propC09 = &h.Prop[ProgCase]{ID: "C09", Rule: ruleC09, Gen: func(t *rapid.T) ProgCase {
 	o := sm.DefaultOpts()
